@@ -5,24 +5,36 @@ import (
 	"github.com/xjslang/xjs/token"
 )
 
+// stmtOrNil turns a nil pointer to a concrete statement type into an untyped nil,
+// so that callers testing `stmt != nil` do not keep failed statements.
+func stmtOrNil[P interface {
+	*T
+	ast.Statement
+}, T any](stmt P) ast.Statement {
+	if stmt == nil {
+		return nil
+	}
+	return stmt
+}
+
 func baseParseStatement(p *Parser) ast.Statement {
 	switch p.CurrentToken.Type {
 	case token.LET:
-		return p.ParseLetStatement()
+		return stmtOrNil(p.ParseLetStatement())
 	case token.FUNCTION:
-		return p.ParseFunctionStatement()
+		return stmtOrNil(p.ParseFunctionStatement())
 	case token.RETURN:
-		return p.ParseReturnStatement()
+		return stmtOrNil(p.ParseReturnStatement())
 	case token.IF:
-		return p.ParseIfStatement()
+		return stmtOrNil(p.ParseIfStatement())
 	case token.WHILE:
-		return p.ParseWhileStatement()
+		return stmtOrNil(p.ParseWhileStatement())
 	case token.FOR:
-		return p.ParseForStatement()
+		return stmtOrNil(p.ParseForStatement())
 	case token.LBRACE:
 		return p.ParseBlockStatement()
 	default:
-		return p.ParseExpressionStatement()
+		return stmtOrNil(p.ParseExpressionStatement())
 	}
 }
 
